@@ -99,6 +99,9 @@ where
         status_on_unsat: bool,
     ) -> (bool, Option<Vec<&Argument<T>>>) {
         let mut merged = Vec::new();
+        // a list of arguments is a disjunction: for credulous acceptance, one component must provide an extension
+        // containing one of its listed arguments, the other components must only have an extension
+        let mut witness_found = !assumption_polarity;
         for cc_af in ConnectedComponentsComputer::iter_connected_components(self.af) {
             let mut solver = (self.solver_factory)();
             self.constraints_encoder
@@ -107,7 +110,7 @@ where
                 .iter()
                 .filter_map(|a| cc_af.argument_set().get_argument(a.label()).ok())
                 .collect::<Vec<&Label<T>>>();
-            if !args_in_cc.is_empty() {
+            if !args_in_cc.is_empty() && !(assumption_polarity && witness_found) {
                 let mut opt_selector = None;
                 let assumption_lits = if assumption_polarity {
                     let selector = Literal::from(1 + solver.n_vars() as isize);
@@ -125,11 +128,16 @@ where
                         .map(|a| self.constraints_encoder.arg_to_lit(a).negate())
                         .collect::<Vec<Literal>>()
                 };
-                let result = solver
+                let mut result = solver
                     .solve_under_assumptions(&assumption_lits)
                     .unwrap_model();
                 if assumption_polarity {
                     solver.add_clause(vec![opt_selector.unwrap().negate()]);
+                    if result.is_some() {
+                        witness_found = true;
+                    } else {
+                        result = solver.solve().unwrap_model();
+                    }
                 }
                 match result {
                     Some(assignment) => {
@@ -165,6 +173,9 @@ where
                     None => return (status_on_unsat, None),
                 }
             }
+        }
+        if !witness_found {
+            return (status_on_unsat, None);
         }
         (!status_on_unsat, Some(merged))
     }
